@@ -10,6 +10,7 @@ import (
 	"runtime"
 	"runtime/debug"
 	"runtime/metrics"
+	"strings"
 	"sync/atomic"
 	"syscall"
 	"time"
@@ -130,8 +131,26 @@ func Worker(a WorkerArgs) int {
 		runOne(a.Only, eng.Gen(a.Prop, a.Tier, a.Seed, a.Only))
 		return 0
 	}
+	filter := os.Getenv("VERIF_FILTER") // development aid: only cases whose name contains this string
 	for idx := a.Start; idx < a.N; idx += a.Stride {
-		runOne(idx, eng.Gen(a.Prop, a.Tier, a.Seed, idx))
+		c := safeGen(eng, a.Prop, a.Tier, a.Seed, idx)
+		if c == nil {
+			fmt.Fprintf(prog, "BEGIN %d gen-panic\nEND %d\n", idx, idx)
+			b, _ := json.Marshal(&Result{Index: idx, Name: "gen-panic", Inconclusive: []string{"generator panicked"}})
+			w.Write(b)
+			w.WriteByte('\n')
+			w.Flush()
+			continue
+		}
+		if filter != "" && !strings.Contains(c.Name, filter) {
+			fmt.Fprintf(prog, "BEGIN %d filtered\nEND %d\n", idx, idx)
+			b, _ := json.Marshal(&Result{Index: idx, Name: c.Name, Skipped: "filtered"})
+			w.Write(b)
+			w.WriteByte('\n')
+			w.Flush()
+			continue
+		}
+		runOne(idx, c)
 	}
 	return 0
 }
@@ -146,4 +165,14 @@ func safeCheck(eng Engine, prop, tier string, c *Case) (res *Result) {
 		}
 	}()
 	return eng.Check(prop, tier, c)
+}
+
+func safeGen(eng Engine, prop, tier string, seed uint64, idx int) (c *Case) {
+	defer func() {
+		if r := recover(); r != nil {
+			fmt.Fprintf(os.Stderr, "generator panic at index %d: %v\n", idx, r)
+			c = nil
+		}
+	}()
+	return eng.Gen(prop, tier, seed, idx)
 }
